@@ -315,7 +315,9 @@ def check_reads(t, e, A, label, case, inner_failed=frozenset()):
     """
     A = np.asarray(A)
     failed = set()
-    label = type(e).__name__ + ("(" + type(e._data).__name__ + ")" if hasattr(e, "_data") and hasattr(e._data, "dense") and not isinstance(e._data, np.ndarray) else "")
+    inner = getattr(e, "_data", None)
+    # (a class test, not hasattr(inner, "dense"): that would evaluate the property and let its exceptions through)
+    label = type(e).__name__ + ("(" + type(inner).__name__ + ")" if any(c.__name__ == "Encoding" for c in type(inner).__mro__) else "")
 
     def report(key, c, d, name):
         failed.add(name)
